@@ -179,7 +179,7 @@ class C01(Check):
             cs.append({"kind": "compose", "phase": "receipt", "L": L})
         for L in range(2, self.compose_max + 1):
             cs.append({"kind": "compose", "phase": "proof", "L": L})
-        for order in range(4):
+        for order in range(5):
             cs.append({"kind": "sequence", "order": order})
         return cs
 
@@ -317,7 +317,16 @@ class C01(Check):
             idx = [i for pair in zip(idx, idx) for i in pair]      # every request twice in a row
         reqs_ = [self.request_and_expectation(shapes[i]) for i in idx]
 
-        def one(proto, dev, req):
+        def one(proto, dev, req, spoil=None):
+            if spoil is not None:
+                # the same request refused by the device at exchange `spoil[1]` first (error status):
+                # nothing the manager had in flight may leak into the next request
+                wl, at = spoil
+                base = wl.seq
+                wl.inject = lambda world, i, apdu: ("sw", 0x6A8C) if i - base == at else None
+                harness.handle_request(proto, copy.deepcopy(req))
+                wl.inject = None
+                dev.reset_session()
             n = len(dev.held)
             reply, exc = harness.handle_request(proto, copy.deepcopy(req))
             return reply, exc, [h for h in dev.held[n:]]
@@ -334,7 +343,7 @@ class C01(Check):
         protos[True].protocol_v2.hsm2dongle = protos[False].hsm2dongle
         for k, (req, exp) in enumerate(reqs_):
             stats.evaluations += 1
-            got = one(protos[exp["v1"]], dev, req)
+            got = one(protos[exp["v1"]], dev, req, spoil=(w, 1 + k % 5) if order == 4 else None)
             same = got == fresh[k]
             stats.observe(("sequence", order, shapes[idx[k]]["kind"], same), nontrivial=True)
             if not same:
